@@ -52,6 +52,18 @@ def register(reg, prog):
     reg.assume('A-REMOTE: endpoint addresses are compared by identity of an abstract address value (their __eq__/__hash__ '
                'are consistent and total)')
 
+    # type invariants of values (A-TYPEINV): block options have a non-negative number and a 3-bit size exponent (what
+    # BlockOption.decode produces: proved in C01), endpoints advertise a block size exponent 0..7 and at least 1024 bytes
+    def block_fact(v):
+        inner = v.some()
+        return z3.Or(v.is_none(), z3.And(inner.items[0].t >= 0, inner.items[2].t >= 0, inner.items[2].t <= 7))
+    reg.field_facts['block1'] = block_fact
+    reg.field_facts['block2'] = block_fact
+    reg.field_facts['maximum_block_size_exp'] = lambda v: z3.And(v.t >= 0, v.t <= 7)
+    reg.field_facts['maximum_payload_size'] = lambda v: v.t >= 1024
+    reg.assume('A-TYPEINV: every Block1/Block2 option value has block number >= 0 and size exponent 0..7; every endpoint address '
+               'has maximum_block_size_exp in 0..7 and maximum_payload_size >= 1024')
+
     @reg.external('new:aiocoap.message:Message')
     def _new_message(ex, st, args, kw, node):
         """Message(...) -- assumed contract of Message.__init__ (conformance-tested natively): fields from the
